@@ -75,7 +75,7 @@ class C04(Check):
                    'reported distance must agree with the reference within max(1e-9 relative, 1e-11 deg)',
                    'every chunk size the function accepts without raising (> match length) is admissible',
                    'maxmatch > 0 is judged on validity + cap + greedy-maximality + order, not on a particular tie-break']
-    REQUIRED_COUNTERS = ('true_pairs', 'cross_cell_true_pairs', 'near_threshold_pairs', 'wrap_low_arm', 'wrap_high_arm',
+    REQUIRED_COUNTERS = ('true_pairs', 'band_pairs_undecided', 'cross_cell_true_pairs', 'near_threshold_pairs', 'wrap_low_arm', 'wrap_high_arm',
                          'multi_slice_arm', 'outside_bounds_arm', 'polar_single_cell_slice', 'maxmatch_pos_calls',
                          'maxmatch_blocked_pairs', 'edge_close_points', 'perm_variants', 'chunksize_variants')
 
@@ -102,18 +102,18 @@ class C04(Check):
     def budget(self, tier):
         q = tier == 'quick'
         return {
-            'clusters': 260 if q else 12000,
-            'seam': 120 if q else 6000,
-            'allsky': 40 if q else 1500,
-            'wide2': 120 if q else 6000,
-            'shells': 160 if q else 8000,
-            'dups': 80 if q else 3000,
-            'maxmatch': 160 if q else 8000,
-            'clamped': 160 if q else 6000,
-            'guided': 320 if q else 16000,
-            'guided_pad': 160 if q else 8000,
-            'guided_wrap': 80 if q else 4000,
-            'polar': 100 if q else 5000,
+            'clusters': 600 if q else 12000,
+            'seam': 300 if q else 6000,
+            'allsky': 80 if q else 1500,
+            'wide2': 300 if q else 6000,
+            'shells': 400 if q else 8000,
+            'dups': 160 if q else 3000,
+            'maxmatch': 400 if q else 8000,
+            'clamped': 400 if q else 6000,
+            'guided': 800 if q else 16000,
+            'guided_pad': 400 if q else 8000,
+            'guided_wrap': 200 if q else 4000,
+            'polar': 240 if q else 5000,
         }
 
     # ------------------------------------------------------------------ generator helpers
@@ -243,6 +243,8 @@ class C04(Check):
         for _ in range(rng.randint(4, 60)):
             j = rng.randrange(n1)
             u = rng.choice([1, 2, 3, 4, 5, 6, 7, rng.uniform(1, 7)])
+            if rng.random() < 0.03:
+                u = rng.choice([9.5, 10, 12])           # inside the ambiguity band on purpose (must end up undecided)
             s = rng.choice([-1.0, 1.0])
             r = rng.random()
             if r < 0.4:
@@ -634,6 +636,7 @@ class C04(Check):
         nband = int((maybe & ~sure).sum())
         if nband:
             out.undecide(nband)
+            out.count('band_pairs_undecided', nband)
         Sf = S.astype('d')
         nsure = int(sure.sum())
         out.count('true_pairs', nsure)
